@@ -304,9 +304,35 @@ FUNCS = {
     "bip44_seq": Func(model=model_seq, impl=impl_seq, direct=direct_seq),
     "bip44_coin": Func(model=lambda m, a: m.call("bip44_coin", a[0], a[1].encode()), impl=impl_coin),
     # coin type of the live configuration vs the committed registry snapshot (Lemmas/Registry.v)
+    "rederive": Func(impl=lambda a: 0, direct=lambda a: direct_rederive(a)),
     "coin_type_registry": Func(model=lambda m, a: m.call("registry_coin_idx", a[0], a[1].encode()),
                                impl=lambda a: conf_of(a[0], a[1]).CoinIndex()),
 }
+
+
+def direct_rederive(a):
+    """Every level step asked twice of the SAME parent object, the first child converted to public-only in place in
+    between: the second answer must be a fresh private node equal to what a newly built chain gives (a child
+    cached on the parent shows here), and the parent must be unchanged."""
+    hid, name = a
+    cls, enum, _ = HIER[hid]
+    coin = enum[name]
+    steps = [[PURPOSE], [COIN], [ACCOUNT, 0], [CHANGE, 0], [ADDR, 0]]
+    par = cls.FromSeed(SEED, coin)
+    for n, op in enumerate(steps):
+        before = fingerprint(par)
+        first = apply_op(hid, name, par, op)
+        want = fingerprint(first)
+        first.Bip32Object().ConvertToPublic()
+        second = apply_op(hid, name, par, op)
+        if fingerprint(second) != want:
+            return "level step %d repeated on one parent after the first child was converted to public-only: the " \
+                   "second child is %s" % (n, "public-only" if second.Bip32Object().IsPublicOnly() else "a different key")
+        if fingerprint(par) != before:
+            return "level step %d changed its parent object" % n
+        # continue from a freshly derived, untouched child
+        par = apply_op(hid, name, par, op)
+    return None
 
 
 # ---- known finding F20 ----
@@ -425,6 +451,8 @@ def generate(ctx):
     for hid in sorted(HIER):
         for member in HIER[hid][1]:
             ctx.run("coin_type_registry", [hid, member.name], "registry")
+    for hid, name in REPRESENTATIVE + [(1, "BITCOIN"), (3, "BITCOIN"), (0, "ETHEREUM"), (0, "STELLAR")]:
+        ctx.run("rederive", [hid, name], "rederive")
     ctx.note_exhaustive("all %d members of Bip44Coins/Bip49Coins/Bip84Coins/Bip86Coins/Cip1852Coins: coin row, legal "
                         "walk with every full-alphabet operation at every level, default path, public-only walk" % n)
     plan = []
